@@ -133,6 +133,11 @@ func RunSingleModelJSON(r io.Reader, w io.Writer, splitOutputs bool) {
 	}
 
 	defer func() {
+		if r := recover(); r != nil {
+			// e.g. parameter values a model cannot be initialised with: answer, don't crash
+			log(fmt.Sprintf("Model failed: %v", r))
+			results = RunResults{}
+		}
 		encodeResults(w, runLogs, results, description, splitOutputs)
 	}()
 
